@@ -72,8 +72,8 @@ Proof.
   destruct l1 as [|x l1]; [cbn in H; lia|]. cbn. apply IH. cbn in H. lia.
 Qed.
 
-Lemma push_R st s d : R st s ->
-  R (q_push st d) {| sp_sent := sp_sent s ++ [d]; sp_acked := sp_acked s |}.
+Lemma push_R st s d b : R st s ->
+  R (q_push st d) {| sp_sent := sp_sent s ++ [d]; sp_acked := sp_acked s; sp_on := b |}.
 Proof.
   intros H. pose proof (push_id_R _ _ H) as Hid. pose proof (held_length _ _ H) as Hlen.
   pose proof (R_le _ _ H) as Hle.
@@ -95,46 +95,41 @@ Proof.
 Qed.
 
 (* a push taken back leaves the queue object as it was: entries and next number *)
-Lemma drop_push st s d : R st s -> q_drop_last (q_push st d) = st.
+Lemma drop_push st s d : R st s -> q_droplast (q_push st d) = st.
 Proof.
   intros H. pose proof (push_id_R _ _ H) as Hid. pose proof (R_last _ _ H) as Hl.
-  unfold q_drop_last, q_push. cbn [fst snd]. rewrite last_id_app, Z.eqb_refl, removelast_last.
+  unfold q_droplast, q_push. cbn [fst snd]. rewrite last_id_app, Z.eqb_refl, removelast_last.
   destruct st as [q l]. cbn [fst snd] in *. f_equal. lia.
 Qed.
 
-Lemma refused_id st s k d : R st s -> fst (a_refused st k d) = st.
-Proof. intros H. destruct k; cbn [a_refused fst]; [apply (drop_push _ _ _ H)|reflexivity|reflexivity]. Qed.
+(* the client state and the specification: the queue as above, and the same flag *)
+Record RA (st : astate) (s : spec) : Prop := {
+  RA_q : R (fst st) s;
+  RA_on : snd st = sp_on s }.
 
-(* one step of the model is one step of the specification *)
-Lemma step_refines st s o : R st s ->
-  let '(st', w) := a_step st o in
-  let '(s', w') := sp_step s o in
-  w = w' /\ R st' s'.
+Lemma refused_id st s k d : RA st s -> fst (a_refused st k d) = st.
 Proof.
-  intros H. destruct o as [k d|k d|k d|h]; cbn [a_step sp_step].
-  - destruct k; cbn [a_send].
-    + split; [reflexivity|apply push_R; exact H].
-    + split; [reflexivity|exact H].
-    + split; [reflexivity|exact H].
-  - destruct k; cbn [a_send].
-    + split; [reflexivity|apply push_R; exact H].
-    + split; [reflexivity|exact H].
-    + split; [reflexivity|exact H].
-  - (* refused write *)
-    pose proof (refused_id _ _ k d H) as Hst.
-    assert (Hw : snd (a_refused st k d) = []) by (destruct k; reflexivity).
-    destruct (a_refused st k d) as [st' w]. cbn [fst snd] in Hst, Hw. subst st' w.
-    split; [reflexivity|exact H].
-  - (* ack *)
+  intros [H Ho]. destruct st as [q b]. cbn [fst snd] in *.
+  destruct k; cbn [a_refused fst snd]; try reflexivity.
+  destruct b; [|reflexivity]. cbn [fst]. rewrite (drop_push _ _ _ H). reflexivity.
+Qed.
+
+(* an acknowledgement: the queue step is the specification's *)
+Lemma ack_refines st s h : R st s ->
+  let '(st', w) := q_ack st h in
+  let '(s', w') := sp_ack s h in
+  w = w' /\ R st' s' /\ sp_on s' = sp_on s.
+Proof.
+  intros H.
     pose proof (held_length _ _ H) as Hlen. pose proof (R_le _ _ H) as Hle.
-    unfold a_ack. destruct (fst st) as [|[first t] q] eqn:E.
+    unfold q_ack, sp_ack. destruct (fst st) as [|[first t] q] eqn:E.
     + (* nothing held *)
       cbn [length] in Hlen.
       assert (Ha : Nat.max (sp_acked s) (Nat.min (Z.to_nat h) (length (sp_sent s))) = sp_acked s) by lia.
       rewrite Ha. unfold sp_held at 1. cbn [sp_acked sp_sent].
       assert (Hh : skipn (sp_acked s) (sp_sent s) = []).
       { pose proof (R_held _ _ H) as Hh. rewrite E in Hh. cbn in Hh. symmetry. exact Hh. }
-      rewrite Hh. split; [reflexivity|]. destruct s as [sent acked]. exact H.
+      rewrite Hh. split; [reflexivity|]. split; [|reflexivity]. destruct s as [sent acked on]. exact H.
     + pose proof (R_consec _ _ H) as Hc. rewrite E in Hc. cbn [consec] in Hc. destruct Hc as [Hf Hc].
       set (a := sp_acked s) in *. set (n := length (sp_sent s)) in *.
       cbn [length] in Hlen.
@@ -151,7 +146,7 @@ Proof.
       assert (Hheld' : map snd (skipn (length r) ((first, t) :: q)) = skipn a' (sp_sent s)).
       { rewrite map_snd_skipn. pose proof (R_held _ _ H) as Hh. rewrite E in Hh. rewrite Hh.
         unfold sp_held. rewrite skipn_skipn'. f_equal. fold a. lia. }
-      assert (HR' : R (skipn (length r) ((first, t) :: q), snd st) {| sp_sent := sp_sent s; sp_acked := a' |}).
+      assert (HR' : R (skipn (length r) ((first, t) :: q), snd st) {| sp_sent := sp_sent s; sp_acked := a'; sp_on := sp_on s |}).
       { constructor; cbn [fst snd sp_sent sp_acked].
         - pose proof (consec_skipn (Z.of_nat a) ((first, t) :: q) (length r)) as Hk.
           assert (Hc0 : consec (Z.of_nat a) ((first, t) :: q)) by (cbn; split; assumption).
@@ -164,21 +159,61 @@ Proof.
       unfold sp_held at 1. cbn [sp_sent sp_acked]. fold a'.
       rewrite <- Hheld'.
       destruct (skipn (length r) ((first, t) :: q)) as [|e q'] eqn:Eq.
-      * cbn [map]. split; [reflexivity|exact HR'].
-      * cbn [map]. split; [|exact HR'].
+      * cbn [map]. split; [reflexivity|]. split; [exact HR'|reflexivity].
+      * cbn [map]. split; [|split; [exact HR'|reflexivity]].
         rewrite map_map. reflexivity.
 Qed.
 
 Lemma init_R : R q_init sp_init.
 Proof. constructor; cbn; auto. Qed.
+Lemma init_RA : RA a_init sp_init.
+Proof. constructor; [exact init_R|reflexivity]. Qed.
 
-Lemma run_refines ops : forall st s, R st s ->
+(* one step of the model is one step of the specification *)
+Lemma step_refines st s o : RA st s ->
+  let '(st', w) := a_step st o in
+  let '(s', w') := sp_step s o in
+  w = w' /\ RA st' s'.
+Proof.
+  intros HA. pose proof (RA_q _ _ HA) as H. pose proof (RA_on _ _ HA) as Ho.
+  assert (Hsend : forall k d, let '(st', w) := a_send st k d in
+            let '(s', w') := sp_step s (ASend k d) in w = w' /\ RA st' s').
+  { intros k d. destruct st as [q b]. cbn [fst snd] in *. subst b.
+    destruct k; cbn [a_send sp_step fst snd].
+    - destruct (sp_on s) eqn:On.
+      + split; [reflexivity|]. constructor; [apply push_R; exact H|reflexivity].
+      + split; [reflexivity|]. constructor; [exact H|cbn; congruence].
+    - split; [reflexivity|]. constructor; [exact H|reflexivity].
+    - split; [reflexivity|]. constructor; [exact H|reflexivity]. }
+  destruct o as [k d|k d|k d|h|h j|r]; cbn [a_step].
+  - exact (Hsend k d).
+  - specialize (Hsend k d). destruct k; exact Hsend.
+  - (* refused write *)
+    pose proof (refused_id _ _ k d HA) as Hst.
+    assert (Hw : snd (a_refused st k d) = []).
+    { destruct st as [q b]. destruct k; cbn; [destruct b|..]; reflexivity. }
+    destruct (a_refused st k d) as [st' w]. cbn [fst snd] in Hst, Hw. subst st' w.
+    cbn [sp_step]. split; [reflexivity|exact HA].
+  - (* ack *)
+    cbn [sp_step]. unfold a_ack. pose proof (ack_refines (fst st) s h H) as Hk.
+    destruct (q_ack (fst st) h) as [q' w]. destruct (sp_ack s h) as [s' w'].
+    destruct Hk as (Hw & HR & Hon). split; [exact Hw|]. constructor; [exact HR|cbn [snd]; congruence].
+  - (* ack, retransmission cut short *)
+    cbn [sp_step]. unfold a_ack_refused, a_ack. pose proof (ack_refines (fst st) s h H) as Hk.
+    destruct (q_ack (fst st) h) as [q' w]. destruct (sp_ack s h) as [s' w'].
+    destruct Hk as (Hw & HR & Hon). split; [rewrite Hw; reflexivity|]. constructor; [exact HR|cbn [snd]; congruence].
+  - (* a new session *)
+    cbn [sp_step a_enabled]. split; [reflexivity|]. constructor; cbn [fst snd sp_on]; [|exact Ho].
+    constructor; cbn; auto.
+Qed.
+
+Lemma run_refines ops : forall st s, RA st s ->
   map (fun wq => (fst wq, map snd (snd wq))) (a_run st ops) = sp_run s ops.
 Proof.
   induction ops as [|o ops IH]; intros st s H; [reflexivity|].
   cbn [a_run sp_run]. pose proof (step_refines st s o H) as Hs.
   destruct (a_step st o) as [st' w]. destruct (sp_step s o) as [s' w'].
-  destruct Hs as [-> HR]. cbn [map fst snd]. rewrite (R_held _ _ HR), (IH _ _ HR). reflexivity.
+  destruct Hs as [-> HR]. cbn [map fst snd]. rewrite (R_held _ _ (RA_q _ _ HR)), (IH _ _ HR). reflexivity.
 Qed.
 
 (* acks are never held, through Send (value or pointer) or SendRaw *)
@@ -186,11 +221,7 @@ Lemma acks_not_held st k d : k <> KStanza ->
   fst (a_step st (ASend k d)) = st /\ fst (a_step st (ASendRaw k d)) = st.
 Proof. destruct k; [contradiction| |]; split; reflexivity. Qed.
 
-(* the state after a history *)
-Definition a_exec (st : qstate) (ops : list aop) : qstate := fold_left (fun s o => fst (a_step s o)) ops st.
-Definition sp_exec (s : spec) (ops : list aop) : spec := fold_left (fun s o => fst (sp_step s o)) ops s.
-
-Lemma exec_R ops : forall st s, R st s -> R (a_exec st ops) (sp_exec s ops).
+Lemma exec_RA ops : forall st s, RA st s -> RA (a_exec st ops) (sp_exec s ops).
 Proof.
   induction ops as [|o ops IH]; intros st s H; [exact H|].
   cbn [a_exec sp_exec fold_left]. apply IH. pose proof (step_refines st s o H) as Hs.
@@ -199,20 +230,216 @@ Qed.
 
 (* a stanza whose write is refused is neither held nor numbered, in any reachable state *)
 Lemma refused_not_held ops k d :
-  a_step (a_exec q_init ops) (ARefused k d) = (a_exec q_init ops, []).
+  a_step (a_exec a_init ops) (ARefused k d) = (a_exec a_init ops, []).
 Proof.
-  pose proof (exec_R ops _ _ init_R) as H. cbn [a_step].
+  pose proof (exec_RA ops _ _ init_RA) as H. cbn [a_step].
   rewrite (surjective_pairing (a_refused _ k d)), (refused_id _ _ k d H).
-  destruct k; reflexivity.
+  destruct (a_exec a_init ops) as [q b]. destruct k; cbn; [destruct b|..]; reflexivity.
 Qed.
 
-(* pushes in any global order (the order in which concurrent senders obtain the queue
-   lock): the queue holds the payloads in that order, numbered 1, 2, ... *)
-Lemma pushes_R l : forall st s, R st s ->
-  R (fold_left q_push l st) {| sp_sent := sp_sent s ++ l; sp_acked := sp_acked s |}.
+(* ---- the queue in every reachable state, in terms of the specification ---- *)
+
+Lemma consec_numbered a q : consec a q -> q = numbered (a + 1) (map snd q).
 Proof.
-  induction l as [|d l IH]; intros st s H; cbn [fold_left].
-  - rewrite app_nil_r. destruct s; exact H.
-  - specialize (IH _ _ (push_R st s d H)). cbn [sp_sent sp_acked] in IH.
-    rewrite <- app_assoc in IH. exact IH.
+  revert a; induction q as [|[i t] q IH]; intros a Hc; [reflexivity|].
+  cbn in Hc. destruct Hc as [-> Hc]. cbn [map snd numbered]. f_equal. apply IH. exact Hc.
+Qed.
+
+Lemma R_numbered st s : R st s -> fst st = numbered (Z.of_nat (sp_acked s) + 1) (sp_held s).
+Proof. intros H. rewrite <- (R_held _ _ H). apply consec_numbered. exact (R_consec _ _ H). Qed.
+
+Lemma numbering_reachable ops :
+  let st := a_exec a_init ops in let s := sp_exec sp_init ops in
+  fst (fst st) = numbered (Z.of_nat (sp_acked s) + 1) (sp_held s) /\
+  snd (fst st) = Z.of_nat (length (sp_sent s)) /\
+  snd st = sp_on s /\ (sp_acked s <= length (sp_sent s))%nat.
+Proof.
+  cbn zeta. pose proof (exec_RA ops _ _ init_RA) as [H Ho].
+  split; [exact (R_numbered _ _ H)|]. split; [exact (R_last _ _ H)|]. split; [exact Ho|exact (R_le _ _ H)].
+Qed.
+
+Lemma In_numbered l : forall a i d,
+  In (i, d) (numbered a l) <-> a <= i /\ nth_error l (Z.to_nat (i - a)) = Some d.
+Proof.
+  induction l as [|x l IH]; intros a i d; cbn [numbered In].
+  - split; [contradiction|]. intros [_ H]. destruct (Z.to_nat (i - a)); discriminate.
+  - rewrite IH. split.
+    + intros [E|[Hle Hn]].
+      * inversion E; subst. split; [lia|]. replace (i - i) with 0 by lia. reflexivity.
+      * split; [lia|]. replace (Z.to_nat (i - a)) with (S (Z.to_nat (i - (a + 1)))) by lia. exact Hn.
+    + intros [Hle Hn]. destruct (Z.eq_dec a i) as [->|Hne].
+      * left. replace (i - i) with 0 in Hn by lia. cbn in Hn. inversion Hn. reflexivity.
+      * right. split; [lia|]. replace (Z.to_nat (i - a)) with (S (Z.to_nat (i - (a + 1)))) in Hn by lia. exact Hn.
+Qed.
+
+Lemma nth_error_skipn {A} a : forall (l : list A) k, nth_error (skipn a l) k = nth_error l (a + k).
+Proof.
+  induction a as [|a IH]; intros l k; [reflexivity|].
+  destruct l as [|x l]; [destruct k; reflexivity|]. cbn. apply IH.
+Qed.
+
+(* entry (n, d) is queued iff stanza number n of the session is d and fewer than n are acknowledged *)
+Lemma In_queue st s n d : R st s -> (1 <= n)%nat ->
+  (In (Z.of_nat n, d) (fst st) <-> (sp_acked s < n)%nat /\ nth_error (sp_sent s) (n - 1) = Some d).
+Proof.
+  intros H Hn. rewrite (R_numbered _ _ H), In_numbered. unfold sp_held. rewrite nth_error_skipn.
+  split; intros [H1 H2].
+  - split; [lia|]. replace (n - 1)%nat with (sp_acked s + Z.to_nat (Z.of_nat n - (Z.of_nat (sp_acked s) + 1)))%nat by lia. exact H2.
+  - split; [lia|]. replace (sp_acked s + Z.to_nat (Z.of_nat n - (Z.of_nat (sp_acked s) + 1)))%nat with (n - 1)%nat by lia. exact H2.
+Qed.
+
+(* histories that stay on one session *)
+Definition same_session (ops : list aop) : Prop := Forall (fun o => is_enabled o = false) ops.
+
+Lemma sp_ack_fields s h :
+  sp_sent (fst (sp_ack s h)) = sp_sent s /\ sp_on (fst (sp_ack s h)) = sp_on s /\
+  sp_acked (fst (sp_ack s h)) = Nat.max (sp_acked s) (Nat.min (Z.to_nat h) (length (sp_sent s))).
+Proof. unfold sp_ack. destruct (sp_held _); cbn; auto. Qed.
+
+Lemma sp_step_fields s o : is_enabled o = false ->
+  sp_on (fst (sp_step s o)) = sp_on s /\
+  sp_sent (fst (sp_step s o)) = sp_sent s ++ (if sp_on s then first_tx o else []) /\
+  sp_acked (fst (sp_step s o)) =
+    match ack_h o with
+    | Some h => Nat.max (sp_acked s) (Nat.min (Z.to_nat h) (length (sp_sent s)))
+    | None => sp_acked s
+    end.
+Proof.
+  intros He. destruct o as [k d|k d|k d|h|h j|r]; try discriminate; cbn [sp_step first_tx ack_h].
+  - destruct k; [destruct (sp_on s) eqn:On; cbn; rewrite ?app_nil_r; auto|..];
+      cbn; destruct (sp_on s); rewrite app_nil_r; auto.
+  - destruct k; [destruct (sp_on s) eqn:On; cbn; rewrite ?app_nil_r; auto|..];
+      cbn; destruct (sp_on s); rewrite app_nil_r; auto.
+  - cbn. destruct (sp_on s); rewrite app_nil_r; auto.
+  - pose proof (sp_ack_fields s h) as (H1 & H2 & H3). rewrite H1, H2, H3.
+    destruct (sp_on s); rewrite app_nil_r; auto.
+  - pose proof (sp_ack_fields s h) as (H1 & H2 & H3). destruct (sp_ack s h) as [s' w]. cbn [fst] in *.
+    rewrite H1, H2, H3. destruct (sp_on s); rewrite app_nil_r; auto.
+Qed.
+
+(* on one session the list of stanzas sent only grows, and stanza number m (already sent) is still
+   unacknowledged iff it was and every acknowledgement since carried h < m *)
+Lemma same_session_exec post : forall s m, same_session post -> (1 <= m <= length (sp_sent s))%nat ->
+  let s' := sp_exec s post in
+  sp_on s' = sp_on s /\
+  sp_sent s' = sp_sent s ++ (if sp_on s then flat_map first_tx post else []) /\
+  ((sp_acked s' < m)%nat <->
+   (sp_acked s < m)%nat /\ Forall (fun o => match ack_h o with Some h => h < Z.of_nat m | None => True end) post).
+Proof.
+  induction post as [|o post IH]; intros s m Hs Hm; cbn zeta.
+  - cbn. destruct (sp_on s); rewrite app_nil_r; (split; [reflexivity|]; split; [reflexivity|]);
+      (split; [intros H; split; [exact H|constructor]|intros [H _]; exact H]).
+  - inversion Hs as [|? ? He Hs']; subst. cbn [sp_exec fold_left]. fold (sp_exec (fst (sp_step s o)) post).
+    pose proof (sp_step_fields s o He) as (Ho & Hsent & Hack).
+    assert (Hm' : (1 <= m <= length (sp_sent (fst (sp_step s o))))%nat) by (rewrite Hsent, app_length; lia).
+    specialize (IH _ m Hs' Hm'). cbn zeta in IH. destruct IH as (I1 & I2 & I3).
+    split; [congruence|]. split.
+    + rewrite I2, Hsent, Ho, <- app_assoc. f_equal. cbn [flat_map]. destruct (sp_on s); reflexivity.
+    + rewrite I3, Hack. split.
+      * intros [Ha Hf]. destruct (ack_h o) as [h|] eqn:Eh.
+        -- split; [lia|]. constructor; [rewrite Eh; lia|exact Hf].
+        -- split; [exact Ha|]. constructor; [rewrite Eh; exact I|exact Hf].
+      * intros [Ha Hf]. inversion Hf as [|? ? Hh Hf']; subst. split; [|exact Hf'].
+        destruct (ack_h o) as [h|]; [lia|exact Ha].
+Qed.
+
+Lemma exec_app_a st ops1 ops2 : a_exec st (ops1 ++ ops2) = a_exec (a_exec st ops1) ops2.
+Proof. unfold a_exec. apply fold_left_app. Qed.
+Lemma exec_app_sp s ops1 ops2 : sp_exec s (ops1 ++ ops2) = sp_exec (sp_exec s ops1) ops2.
+Proof. unfold sp_exec. apply fold_left_app. Qed.
+
+(* "remains held until the server acknowledges it": a stanza sent while the client holds gets the next
+   number n; after any continuation on the same session it is queued under n iff no acknowledgement since
+   carried h >= n, and nothing else is ever queued under n *)
+Lemma step_flag st o : snd (fst (a_step st o)) = snd st.
+Proof.
+  destruct st as [q b]. destruct o as [[]|[]|[]|h|h j|r]; cbn; try reflexivity; try (destruct b; reflexivity).
+  - unfold a_ack. cbn. destruct (q_ack q h); reflexivity.
+  - unfold a_ack_refused, a_ack. cbn. destruct (q_ack q h); reflexivity.
+Qed.
+
+(* a client configured with stream management holds throughout: nothing the server says switches it off *)
+Lemma always_holding ops : snd (a_exec a_init ops) = true.
+Proof.
+  assert (G : forall st, snd (a_exec st ops) = snd st).
+  { induction ops as [|o ops IH]; intros st; [reflexivity|]. cbn [a_exec fold_left].
+    fold (a_exec (fst (a_step st o)) ops). rewrite IH. apply step_flag. }
+  apply G.
+Qed.
+
+Lemma held_iff_unacked pre o d post :
+  first_tx o = [d] -> same_session post ->
+  let n := snd (fst (a_exec a_init pre)) + 1 in
+  let st := a_exec a_init (pre ++ o :: post) in
+  (In (n, d) (fst (fst st)) <->
+   Forall (fun o' => match ack_h o' with Some h => h < n | None => True end) post) /\
+  (forall d', In (n, d') (fst (fst st)) -> d' = d).
+Proof.
+  intros Hd Hs. cbn zeta. pose proof (always_holding pre) as Hon.
+  pose proof (exec_RA pre _ _ init_RA) as [H0 Ho0]. rewrite Hon in Ho0.
+  pose proof (exec_RA (pre ++ o :: post) _ _ init_RA) as [H1 _].
+  set (s0 := sp_exec sp_init pre) in *.
+  rewrite (R_last _ _ H0).
+  replace (Z.of_nat (length (sp_sent s0)) + 1) with (Z.of_nat (S (length (sp_sent s0)))) by lia.
+  set (m := S (length (sp_sent s0))).
+  assert (Hm1 : (1 <= m)%nat) by (unfold m; lia).
+  (* the specification after o *)
+  assert (He : is_enabled o = false) by (destruct o as [[]|[]| | | |]; try discriminate; reflexivity).
+  pose proof (sp_step_fields s0 o He) as (Ho1 & Hsent1 & Hack1). rewrite <- Ho0, Hd in Hsent1.
+  assert (Hack1' : sp_acked (fst (sp_step s0 o)) = sp_acked s0).
+  { rewrite Hack1. destruct o as [[]|[]| | | |]; try discriminate; reflexivity. }
+  set (s1 := fst (sp_step s0 o)) in *.
+  assert (Hm : (1 <= m <= length (sp_sent s1))%nat) by (rewrite Hsent1, app_length; cbn; unfold m; lia).
+  pose proof (same_session_exec post s1 m Hs Hm) as (I1 & I2 & I3). cbn zeta in I1, I2, I3.
+  assert (Hspec : sp_exec sp_init (pre ++ o :: post) = sp_exec s1 post).
+  { rewrite exec_app_sp. reflexivity. }
+  rewrite Hspec in H1. set (s := sp_exec s1 post) in *.
+  assert (Hnth : nth_error (sp_sent s) (m - 1) = Some d).
+  { rewrite I2, Hsent1, <- app_assoc. unfold m. replace (S (length (sp_sent s0)) - 1)%nat with (length (sp_sent s0)) by lia.
+    rewrite nth_error_app2 by lia. rewrite Nat.sub_diag. reflexivity. }
+  assert (Ha1 : (sp_acked s1 < m)%nat) by (rewrite Hack1'; pose proof (R_le _ _ H0); unfold m; lia).
+  split.
+  - rewrite (In_queue _ _ m d H1 Hm1), I3. split.
+    + intros [[_ Hf] _]. exact Hf.
+    + intros Hf. split; [split; [exact Ha1|exact Hf]|exact Hnth].
+  - intros d' Hin. apply (In_queue _ _ m d' H1 Hm1) in Hin. destruct Hin as [_ Hn]. congruence.
+Qed.
+
+(* ---- the wire order of the first transmissions is the numbering ---- *)
+Lemma wire_order_is_numbering ops : same_session ops ->
+  let st := a_exec a_init ops in
+  snd (fst st) = Z.of_nat (length (flat_map first_tx ops)) /\
+  forall i d, In (i, d) (fst (fst st)) -> 1 <= i /\ nth_error (flat_map first_tx ops) (Z.to_nat (i - 1)) = Some d.
+Proof.
+  intros Hs. cbn zeta. pose proof (exec_RA ops _ _ init_RA) as [H _].
+  assert (Hsent : sp_sent (sp_exec sp_init ops) = flat_map first_tx ops).
+  { destruct ops as [|o ops]; [reflexivity|].
+    (* m is irrelevant here: use the sent-list part on the history after a first step *)
+    assert (G : forall post s, same_session post ->
+              sp_sent (sp_exec s post) = sp_sent s ++ (if sp_on s then flat_map first_tx post else [])).
+    { induction post as [|o' post IH]; intros s Hp.
+      - cbn. destruct (sp_on s); rewrite app_nil_r; reflexivity.
+      - inversion Hp as [|? ? He Hp']; subst. cbn [sp_exec fold_left]. fold (sp_exec (fst (sp_step s o')) post).
+        pose proof (sp_step_fields s o' He) as (Ho & Hse & _). rewrite (IH _ Hp'), Hse, Ho, <- app_assoc.
+        f_equal. cbn [flat_map]. destruct (sp_on s); reflexivity. }
+    rewrite (G _ sp_init Hs). reflexivity. }
+  split; [rewrite (R_last _ _ H), Hsent; reflexivity|].
+  intros i d Hin. rewrite (R_numbered _ _ H) in Hin. apply In_numbered in Hin. destruct Hin as [Hle Hn].
+  unfold sp_held in Hn. rewrite nth_error_skipn, Hsent in Hn. split; [lia|].
+  replace (Z.to_nat (i - 1)) with (sp_acked (sp_exec sp_init ops) + Z.to_nat (i - (Z.of_nat (sp_acked (sp_exec sp_init ops)) + 1)))%nat by lia.
+  exact Hn.
+Qed.
+
+Lemma a_run_app ops1 : forall st ops2, a_run st (ops1 ++ ops2) = a_run st ops1 ++ a_run (a_exec st ops1) ops2.
+Proof.
+  induction ops1 as [|o ops1 IH]; intros st ops2; [reflexivity|].
+  cbn [app a_run a_exec fold_left]. destruct (a_step st o) as [st' w] eqn:E. cbn [fst]. rewrite IH. reflexivity.
+Qed.
+
+(* ---- what is held does not depend on whether the server grants resumption ---- *)
+Lemma resume_irrelevant ops : forall st, a_run st ops = a_run st (map grant_resume ops).
+Proof.
+  induction ops as [|o ops IH]; intros st; [reflexivity|]. cbn [map a_run].
+  assert (E : a_step st (grant_resume o) = a_step st o) by (destruct o; reflexivity).
+  rewrite E. destruct (a_step st o) as [st' w]. rewrite IH. reflexivity.
 Qed.
